@@ -71,7 +71,7 @@ pub fn run(ctx: &mut Ctx, _args: &Args) {
         canned_u10ffff(ctx);
     }
     stage_exhaustive(ctx);
-    let n = ctx.tier.pick(250_000, 3_000_000);
+    let n = ctx.tier.pick(250_000, 6_000_000);
     for i in 0..n {
         if ctx.mine(i) {
             random_item(ctx, i);
